@@ -109,6 +109,9 @@ func H_c06(p []int) {
 	x := mkValue(kind, s, 42)
 	v, outerUnsafe := wrapNest(code, x)
 	vSite(fmt.Sprintf("nest=%d kind=%d dir=%q", code, kind, d))
+	if len(p) > 4 && p[4] > 0 {
+		c12History(p[4]-1, "h")
+	}
 	r := catchRedact(func() redact.RedactableString { return redact.Sprintf("a‹ "+d+" b", v) })
 	if r.panicked {
 		return
